@@ -126,6 +126,15 @@ def oracle(case, out):
     if b['dcom'] and not _close(b['haven'], b['dtracer'] / b['dcom'], 1e-9):
         fs.append(('metrics/haven', 'Haven ratio is not tracer diffusivity / centre-of-mass diffusivity'))
     dist = np.array(b['dist'])
+    # distance from the starting point = Cartesian length of the unwrapped displacement (exact Gram matrix; steps are below 0.3 cell)
+    G = np.array(synth.gram(case['m']), dtype=float)
+    at = np.array(case['atoms'], dtype=float)                  # atoms x axes x frames, numerators over DEN
+    start = at[:, :, :1] - (np.array(case['base_off'], dtype=float)[:, :, None] if case.get('as_disp') else 0.0)
+    u = (at - start) / DEN
+    want_dist = np.sqrt(np.einsum('akt,kl,alt->at', u, G, u))
+    if dist.shape != want_dist.shape or not np.allclose(dist, want_dist, rtol=1e-9, atol=1e-9):
+        fs.append(('metrics/distance-not-cartesian-length', f'distances from the starting point differ from the Cartesian length of the unwrapped displacement '
+                   f'by up to {np.abs(dist - want_dist).max() if dist.shape == want_dist.shape else "shape"} (lattice {case["m"]}, rotated={case["rot"]})'))
     sp = np.diff(dist, prepend=0)
     if not np.allclose(sp, np.array(b['speed']), rtol=1e-12, atol=1e-15):
         fs.append(('metrics/speed', 'speed is not the frame-to-frame change of the distance from the start'))
